@@ -178,9 +178,8 @@ func (fc *ProtoForkChoice) Finalized() Checkpoint {
 func (fc *ProtoForkChoice) ProcessAttestation(index ValidatorIndex, blockRoot Root, headSlot Slot) (ok bool) {
 	fc.mu.Lock()
 	defer fc.mu.Unlock()
-	// only add the vote if we can. Don't add if it's not within view.
-	blockSlot, ok := fc.protoArray.GetSlot(blockRoot)
-	if !ok || blockSlot < headSlot {
+	// only add the vote if we can. Don't add if the voted node is not within view.
+	if _, ok := fc.protoArray.Indices()[NodeRef{Root: blockRoot, Slot: headSlot}]; !ok {
 		return false
 	}
 	return fc.voteStore.ProcessAttestation(index, blockRoot, headSlot)
